@@ -239,3 +239,47 @@ func (r *R) sameSet(rule, construct, pos string, aName string, a []string, bName
 }
 
 var _ = ssax.Short
+
+// typeSwitchReturns maps, for the first type switch in fn, each case type name to the constant returned in
+// that clause (first result).
+func (r *R) typeSwitchReturns(fn *ssa.Function) map[string]string {
+	out := map[string]string{}
+	decl, pk := r.P.FuncDecl(fn)
+	if decl == nil || pk == nil {
+		return out
+	}
+	ast.Inspect(decl, func(n ast.Node) bool {
+		ts, ok := n.(*ast.TypeSwitchStmt)
+		if !ok {
+			return true
+		}
+		for _, cs := range ts.Body.List {
+			cc := cs.(*ast.CaseClause)
+			ret := ""
+			ast.Inspect(cc, func(m ast.Node) bool {
+				if rs, ok := m.(*ast.ReturnStmt); ok && len(rs.Results) > 0 && ret == "" {
+					var id *ast.Ident
+					switch x := rs.Results[0].(type) {
+					case *ast.Ident:
+						id = x
+					case *ast.SelectorExpr:
+						id = x.Sel
+					}
+					if id != nil {
+						if c, ok := pk.TypesInfo.Uses[id].(*types.Const); ok {
+							ret = c.Name()
+						}
+					}
+				}
+				return true
+			})
+			for _, e := range cc.List {
+				if tv, ok := pk.TypesInfo.Types[e]; ok && tv.IsType() {
+					out[typeNameOf(tv.Type)] = ret
+				}
+			}
+		}
+		return false
+	})
+	return out
+}
